@@ -337,6 +337,58 @@ Fixpoint sys_run (now : Z) (sy : sys) (h : list (nat * op)) : sys * list obs :=
       (sy2, ob :: obs)
   end.
 
+(** ** connections come and go
+    One middleware value serves connection after connection.  The wrapper of
+    NewSimpleMiddleware calls [ServeNostrStart] when a connection begins — the
+    quota puts a fresh map into the connection's context, the two unique
+    filters build a fresh base (a fresh LRU) per call of the handler — and
+    [ServeNostrEnd] when it ends (every base: nothing to do).  A slot is [None]
+    while no connection occupies it; a slot may be used again after its
+    connection has ended.  An operation addressed to an empty slot has no
+    effect and shows nothing. *)
+Inductive lop := LStart | LEnd | LOp (o : op).
+
+Definition slot := option (list layer).
+
+Definition slot_step (ks : list mwk) (now : Z) (c : slot) (l : lop) : slot * obs :=
+  match l with
+  | LStart => (Some (stack_init ks), ([], []))     (* ServeNostrStart of every layer: fresh state *)
+  | LEnd => (None, ([], []))                       (* ServeNostrEnd: the state is dropped *)
+  | LOp o =>
+      match c with
+      | Some ls => let (ls', ob) := sess_step now ls o in (Some ls', ob)
+      | None => (None, ([], []))
+      end
+  end.
+
+Fixpoint slot_run (ks : list mwk) (now : Z) (c : slot) (h : list lop) : slot * list obs :=
+  match h with
+  | [] => (c, [])
+  | l :: rest =>
+      let (c1, ob) := slot_step ks now c l in
+      let (c2, obs) := slot_run ks now c1 rest in
+      (c2, ob :: obs)
+  end.
+
+Definition lsys := list slot.
+
+Definition lsys_init (n : nat) : lsys := repeat None n.
+
+Definition lsys_step (ks : list mwk) (now : Z) (sy : lsys) (i : nat) (l : lop) : lsys * obs :=
+  match nth_error sy i with
+  | Some c => let (c', ob) := slot_step ks now c l in (upd i c' sy, ob)
+  | None => (sy, ([], []))
+  end.
+
+Fixpoint lsys_run (ks : list mwk) (now : Z) (sy : lsys) (h : list (nat * lop)) : lsys * list obs :=
+  match h with
+  | [] => (sy, [])
+  | (i, l) :: rest =>
+      let (sy1, ob) := lsys_step ks now sy i l in
+      let (sy2, obs) := lsys_run ks now sy1 rest in
+      (sy2, ob :: obs)
+  end.
+
 (** ** BuildMiddlewareFromNIP11 *)
 Record nip11lim := mkLim {
   l_max_subs : Z; l_max_filters : Z; l_max_limit : Z; l_max_subid : Z;
@@ -697,6 +749,35 @@ Fixpoint sp_run (now : Z) (sl : list slayer) (h : list op) (obs : list obs) : bo
       match sp_step now sl o ob with
       | Some sl' => sp_run now sl' h' obs'
       | None => false
+      end
+  | _, _ => false
+  end.
+
+(** "all of this state is per connection and never leaks between
+    connections", over the life of a connection slot: a connection that begins
+    is judged from the initial state of the text (nothing open, nothing seen),
+    whatever earlier connections — in this slot or in any other — did or left
+    behind; beginning and ending a connection shows nothing, and nothing can
+    be observed on a slot without a connection. *)
+Definition obs_empty (ob : obs) : bool :=
+  match ob with ([], []) => true | _ => false end.
+
+Fixpoint sp_life_run (now : Z) (ks : list mwk) (cur : option (list slayer)) (h : list lop) (obs : list obs) : bool :=
+  match h, obs with
+  | [], [] => true
+  | l :: h', ob :: obs' =>
+      match l with
+      | LStart => obs_empty ob && sp_life_run now ks (Some (sp_stack_init ks)) h' obs'
+      | LEnd => obs_empty ob && sp_life_run now ks None h' obs'
+      | LOp o =>
+          match cur with
+          | Some sl =>
+              match sp_step now sl o ob with
+              | Some sl' => sp_life_run now ks (Some sl') h' obs'
+              | None => false
+              end
+          | None => obs_empty ob && sp_life_run now ks None h' obs'
+          end
       end
   | _, _ => false
   end.
